@@ -16,6 +16,11 @@ func (c *Conversation) UseExtraSymmetricKey(usage uint32, usageData []byte) ([]b
 		return nil, nil, newOtrError("cannot send message in current state")
 	}
 
+	// the TLV length field is 16 bits wide
+	if len(usageData) > 0xFFFF-4 {
+		return nil, nil, newOtrError("usage data too long for a TLV")
+	}
+
 	t := tlv{
 		tlvType:   tlvTypeExtraSymmetricKey,
 		tlvLength: 4 + uint16(len(usageData)),
